@@ -107,16 +107,30 @@ def sig_of(text):
 
 
 # ---- K 1: simulator against transcription and Sem ------------------------------------------
-def case_file(chunk):
+def read_redirected(ctx, name, n):
+    """results are written by Coq's `Redirect` (a case file's stdout is not read until coqc exits,
+    so large answers must not go through the pipe)"""
+    import os
+    out = ""
+    for k in range(n):
+        path = os.path.join(ctx.scratch, f"{name}_r{k}.out")
+        if not os.path.exists(path):
+            return None
+        with open(path) as f:
+            out += f.read() + "\n"
+    return out
+
+
+def case_file(name, chunk):
     body = HEADER
     for i, c in enumerate(chunk):
         scripts = progast.lst([progast.lst([str(x) for x in p["script"]]) for p in c["paths"]])
         vars_ = progast.lst([f'"{v}"' for v in c["vars"]])
         body += f"Definition p{i} : prog := {progast.prog_coq(c['prog'])}.\n"
         body += f"Definition v{i} : list var := {vars_}.\n"
-        body += f"Eval vm_compute in k_scripts p{i} {c['N']} v{i} ({scripts} : list (list nat)).\n"
-        body += f"Eval vm_compute in k_sem p{i} {c['N']} v{i}.\n"
-        body += f"Eval vm_compute in k_enum p{i} {c['N']}.\n"
+        body += f"Redirect \"{name}_r{3 * i}\" Eval vm_compute in k_scripts p{i} {c['N']} v{i} ({scripts}%nat : list (list nat)).\n"
+        body += f"Redirect \"{name}_r{3 * i + 1}\" Eval vm_compute in k_sem p{i} {c['N']} v{i}.\n"
+        body += f"Redirect \"{name}_r{3 * i + 2}\" Eval vm_compute in k_enum p{i} {c['N']}.\n"
     return body
 
 
@@ -266,12 +280,13 @@ def k_simulator(ctx):
             cur, load = [], 0
     if cur:
         files.append(cur)
-    outs = lib.coq_run_many(ctx, [(f"c12_sim_{j}", case_file([cases[i] for i in f])) for j, f in enumerate(files)], timeout=600)
+    outs = lib.coq_run_many(ctx, [(f"c12_sim_{j}", case_file(f"c12_sim_{j}", [cases[i] for i in f])) for j, f in enumerate(files)], timeout=600)
     kinds = {}
     agreed = 0
     for j, f in enumerate(files):
         ok, o = outs[f"c12_sim_{j}"]
-        rs = parse_nested(o) if ok else []
+        red = read_redirected(ctx, f"c12_sim_{j}", 3 * len(f)) if ok else None
+        rs = parse_nested(red) if red is not None else []
         if not ok or len(rs) != 3 * len(f):
             ctx.violation("sim-casefile", {"file": f"c12_sim_{j}", "programs": [cases[i]["src"] for i in f], "log": o[-1500:]},
                           "a generated case file did not evaluate in Coq", no_input=True)
@@ -672,9 +687,13 @@ def run(ctx):
         "settings.transform_categoricals = False (default); the categorical-expansion option is C17's",
     ]
     before = len(ctx.violations) + len(ctx.known_hits)
-    k_simulator(ctx)
-    k_samplers(ctx, desc)
-    k_analysis(ctx)
+    phases = {"translate+coq_build": round(ctx.elapsed(), 1)}
+    for name, fn in (("simulator", lambda: k_simulator(ctx)), ("samplers", lambda: k_samplers(ctx, desc)),
+                     ("analysis", lambda: k_analysis(ctx))):
+        t0 = ctx.elapsed()
+        fn()
+        phases[name] = round(ctx.elapsed() - t0, 1)
+    ctx.coverage["phase_seconds"] = phases
     found = len(ctx.violations) + len(ctx.known_hits) - before
     if trans_err is not None and not ctx.violations:
         ctx.violation("translator-unsupported", {"error": trans_err},
